@@ -146,7 +146,7 @@ def unstable_first(cx):
     cx.check(ok, "term:range", "term(idx) answers 0 outside [first_index - 1, last_index]")
 
 
-@obligation("LOGGUARD.slice", ["C14", "C05", "C13"], floor=3, kind="guard (CNF) + value shape",
+@obligation("LOGGUARD.slice", ["C14", "C05", "C07", "C13"], floor=3, kind="guard (CNF) + value shape",
             why="a slice that glues unstable entries behind a truncated stable read has a hole; an unlimited read ignores max_size")
 def slice_(cx):
     f = cx.fn("RaftLog::slice")
